@@ -454,7 +454,7 @@ class CtlWriter:
                             m_span -= len(sb_instructions)
                             ends_m_span = m_span <= 0
                         if write_comment or ctl.lower() != entry_ctl or ctl != 'C' or has_bases or ends_m_span:
-                            self.write_sub_block(ctl, entry_ctl, comment_text, sb_instructions, length)
+                            self.write_sub_block(ctl, entry_ctl, comment_text, sb_instructions, length, ends_m_span)
 
     def addr_str(self, address):
         return self.address_fmt.format(address)
@@ -501,7 +501,7 @@ class CtlWriter:
                 i += 1
         return sub_blocks
 
-    def write_sub_block(self, ctl, entry_ctl, comment, instructions, lengths):
+    def write_sub_block(self, ctl, entry_ctl, comment, instructions, lengths, keep_end=False):
         length = 0
         sublengths = []
         address = instructions[0].address
@@ -521,7 +521,9 @@ class CtlWriter:
                     else:
                         sublengths.append([bases, sublength])
             if not any(comment) and len(sublengths) > 1 and entry_ctl == 'c':
-                if not sublengths[-1][0]:
+                if not sublengths[-1][0] and not keep_end:
+                    # (the end of a sub-block that ends the span of an 'M'
+                    # directive is kept, because it marks the end of the span)
                     length -= sublengths.pop()[1]
                 if not sublengths[0][0]:
                     sublength = sublengths.pop(0)[1]
